@@ -621,7 +621,7 @@ package ro
 //@   alias attempt=source.SubscribeWithContext()
 //@   on next(ctx, value) when opts.ResetOnSuccess : emits Next(ctx, value) ; post retries' == 0
 //@   on next(ctx, value) when !opts.ResetOnSuccess : emits Next(ctx, value) ; post retries' == retries
-//@   on error(ctx, err) : emits ; post retries' == retries + 1 && lastErr' == err && shouldRetry' == (opts.MaxRetries == 0 || retries + 1 <= opts.MaxRetries)
+//@   on error(ctx, err) : emits ; post retries' == retries + 1 && lastErr' == err && lastCtx' == ctx && shouldRetry' == (opts.MaxRetries == 0 || retries + 1 <= opts.MaxRetries)
 //@   on complete(ctx) : emits Complete(ctx)
 
 //@ loop RetryWithConfig$1$1#0
